@@ -829,6 +829,25 @@ class BaseInterpreter(Generic[TContext, TEvent]):
                 return produced
         return None
 
+    def _find_restored_actor(
+        self, actor_id: str
+    ) -> Optional["BaseInterpreter[Any, Any]"]:
+        """Finds an actor by id anywhere below this interpreter.
+
+        Args:
+            actor_id (str): The full actor id.
+
+        Returns:
+            Optional[BaseInterpreter]: The actor, or `None`.
+        """
+        pending = list(self._actors.values())
+        while pending:
+            actor = pending.pop()
+            if actor.id == actor_id:
+                return actor
+            pending.extend(actor._actors.values())
+        return None
+
     @staticmethod
     def _validate_snapshot_shape(snapshot: Dict[str, Any]) -> None:
         """Rejects a decoded snapshot whose fields have the wrong shape.
@@ -1024,8 +1043,10 @@ class BaseInterpreter(Generic[TContext, TEvent]):
                 interpreter._actor_sources[actor_id] = record["src"]
 
         # 🌐 Re-register restored actors under their original systemIds.
+        #    The registry is hierarchy-wide, so the id may name a grandchild:
+        #    looking only at direct children dropped those registrations.
         for system_id, actor_id in (snapshot.get("system") or {}).items():
-            restored_actor = interpreter._actors.get(actor_id)
+            restored_actor = interpreter._find_restored_actor(actor_id)
             if restored_actor is not None:
                 interpreter._system[system_id] = restored_actor
 
